@@ -311,7 +311,7 @@ def run_stress(spec):
         app = App()
         if mech != 'fallback':
             getattr(pollers, mech)().register(app)
-        app.start()
+        loop_thread, _ = app.start()
         nf, k = spec['firers'], spec['events']
 
         def firer(i):
@@ -327,7 +327,7 @@ def run_stress(spec):
             t.join(5)
         time.sleep(0.05)
         app.stop()
-        app.join()
+        loop_thread.join(30)   # (Manager.join() itself races with the end of run(): it may find its thread attribute already None)
         case = {'stress': mech, 'firers': nf, 'events': k, 'seed': spec['seed']}
         if len(got) < nf * k and time.time() >= deadline:
             b.inconclusive_because('stress run on %s: %d of %d events dispatched within the 120 s watchdog' % (mech, len(got), nf * k))
